@@ -16,6 +16,10 @@ import FordModel.ExternalGraph
 import FordModel.Lemmas.ExternalGraph
 import FordModel.ExternalAssoc
 import FordModel.Lemmas.ExternalAssoc
+import FordModel.ExternalChild
+import FordModel.Lemmas.ExternalChild
+import FordModel.ExternalHref
+import FordModel.Lemmas.ExternalHref
 namespace Ford.C16
 open Ford Ford.Ext
 
@@ -646,5 +650,310 @@ example :
         (fun os => (entriesAll os).map (fun x => (x.list, x.cls)))) =
       some [("extModules".toList, "module".toList), ("extProcedures".toList, "function".toList)] := by
   decide
+
+/-! ## Round 6: module-qualified references into A (`[[module:entity]]`, `[[type:component]]`) and the
+    state `dict2obj` leaves in the description -/
+
+/-- **`[[parent:child]]`, exact form.**  For every entity `m` of A (a module, a type, ...: any name, URL, kind,
+    attributes - no bound on their number or on the depth of the tree), looking the name `c` up among the
+    children of the *imported* `m` (`find_child(c)`: the lazy chain `children` in the probed order
+    `Gen.childrenOrder`, `_find_in_list`) never raises and finds exactly the import of the first entity of that
+    name (case-insensitively) in the list attributes `m` was exported with, taken in that order - with the class
+    defaults of the External class (`Gen.classDefaults`, a table fact: all iterable) for what the description
+    does not carry. -/
+theorem child_lookup_exact (b : Base) (p : Option Json) (name : Str) (url : Option Str) (obj : Str)
+    (pt : Option Str) (attrs : List (Str × Attr)) (c : Str) :
+    xFindChild (specE b p (.node name url obj pt attrs)) c none
+      = .ok ((firstChild c attrs Gen.childrenOrder).map (specE b (some (.str name)))) := by
+  simp only [specE, xFindChild]
+  exact findLazy_spec b (some (.str name)) (kindOf obj pt) c attrs Gen.childrenOrder
+
+/-- **`[[module:entity]]` reaches an entity of that name of that module, at its URL in A** (the clause "every
+    public entity of A that B ... names in a `[[...]]` reference is linked to a URL that ... documents that
+    entity", for the module-qualified form - the only form that reaches a module variable).  `e` is listed by `m`
+    in a list attribute that is exported (`∈ ATTRIBUTES`) and that `children` visits: then the look-up of its name
+    in the imported `m` succeeds, and what it finds is the import of an entity `c` that `m` lists under an exported,
+    visited attribute, named like `e` up to case, carrying A's location / `get_url c`. -/
+theorem child_reference_reaches_entity (b : Base) (p : Option Json) (name : Str) (url : Option Str) (obj : Str)
+    (pt : Option Str) (attrs : List (Str × Attr)) (a : Str) (xs : List Ent)
+    (ha : a ∈ Gen.childrenOrder) (hat : a ∈ Gen.attributes) (hl : attrs.lookup a = some (.list xs))
+    (en : Str) (eu : Option Str) (eo : Str) (ept : Option Str) (eats : List (Str × Attr))
+    (he : Ent.node en eu eo ept eats ∈ xs) :
+    ∃ a' xs' cn cu co cpt cats,
+      a' ∈ Gen.childrenOrder ∧ a' ∈ Gen.attributes ∧ attrs.lookup a' = some (.list xs') ∧
+      Ent.node cn cu co cpt cats ∈ xs' ∧ lower en = lower cn ∧
+      xFindChild (specE b p (.node name url obj pt attrs)) en none
+        = .ok (some (specE b (some (.str name)) (.node cn cu co cpt cats))) ∧
+      xUrl (specE b (some (.str name)) (.node cn cu co cpt cats)) = some (.str (rebase b (urlText cu))) := by
+  obtain ⟨c, hc⟩ := firstChild_complete en attrs Gen.childrenOrder a xs ha hat hl en eu eo ept eats he rfl
+  obtain ⟨a', xs', h1, h2, h3, h4, cn, cu, co, cpt, cats, h5, h6⟩ :=
+    firstChild_sound en attrs Gen.childrenOrder c hc
+  subst h5
+  refine ⟨a', xs', cn, cu, co, cpt, cats, h1, h2, h3, h4, h6, ?_, ?_⟩
+  · rw [child_lookup_exact, hc]; rfl
+  · simp [specE, xUrl]
+
+/-- **`[[parent:child(kind)]]`, exact form.**  With a kind that SUBLINK_TYPES maps to an exported attribute which
+    `m` carries as a list: the look-up never raises and finds exactly the import of the first entity of that name
+    in *that* list. -/
+theorem qualified_child_lookup_exact (b : Base) (p : Option Json) (name : Str) (url : Option Str) (obj : Str)
+    (pt : Option Str) (attrs : List (Str × Attr)) (kind a : Str) (xs : List Ent)
+    (hk : Gen.sublinkTypes.lookup (lower kind) = some a) (hat : a ∈ Gen.attributes)
+    (hl : attrs.lookup a = some (.list xs)) (c : Str) :
+    xFindChild (specE b p (.node name url obj pt attrs)) c (some kind)
+      = .ok ((firstNamed c xs).map (specE b (some (.str name)))) := by
+  simp only [specE, xFindChild, hk, attrVal_spec, hat, if_true, hl]
+  exact xFindIn_specList b (some (.str name)) c xs
+
+/-- **`[[module:entity(kind)]]` reaches an entity of that name and kind.** -/
+theorem qualified_child_reference_reaches_entity (b : Base) (p : Option Json) (name : Str) (url : Option Str)
+    (obj : Str) (pt : Option Str) (attrs : List (Str × Attr)) (kind a : Str) (xs : List Ent)
+    (hk : Gen.sublinkTypes.lookup (lower kind) = some a) (hat : a ∈ Gen.attributes)
+    (hl : attrs.lookup a = some (.list xs))
+    (en : Str) (eu : Option Str) (eo : Str) (ept : Option Str) (eats : List (Str × Attr))
+    (he : Ent.node en eu eo ept eats ∈ xs) :
+    ∃ cn cu co cpt cats, Ent.node cn cu co cpt cats ∈ xs ∧ lower en = lower cn ∧
+      xFindChild (specE b p (.node name url obj pt attrs)) en (some kind)
+        = .ok (some (specE b (some (.str name)) (.node cn cu co cpt cats))) ∧
+      xUrl (specE b (some (.str name)) (.node cn cu co cpt cats)) = some (.str (rebase b (urlText cu))) := by
+  obtain ⟨c, hc⟩ := firstNamed_complete en xs en eu eo ept eats he rfl
+  obtain ⟨h4, cn, cu, co, cpt, cats, h5, h6⟩ := firstNamed_sound en xs c hc
+  subst h5
+  refine ⟨cn, cu, co, cpt, cats, h4, h6, ?_, ?_⟩
+  · rw [qualified_child_lookup_exact b p name url obj pt attrs kind a xs hk hat hl, hc]; rfl
+  · simp [specE, xUrl]
+
+/-- **Table facts the two theorems above lean on** (`decide` on the probed tables): every plain list of entities a
+    description carries - `functions`, `subroutines`, `interfaces`, `absinterfaces`, `types`, `variables`,
+    `boundprocs` - is exported (`ATTRIBUTES`) *and* visited by `children`, and the kind words of the link syntax
+    lead to these very lists; what the External classes set themselves can be iterated. -/
+theorem child_lists_exported_and_visited :
+    (∀ a ∈ [chars! "functions", chars! "subroutines", chars! "interfaces", chars! "absinterfaces", chars! "types",
+            chars! "variables", chars! "boundprocs"], a ∈ Gen.attributes ∧ a ∈ Gen.childrenOrder) ∧
+    (∀ kv ∈ [(chars! "function", chars! "functions"), (chars! "subroutine", chars! "subroutines"),
+             (chars! "interface", chars! "interfaces"), (chars! "absinterface", chars! "absinterfaces"),
+             (chars! "type", chars! "types"), (chars! "variable", chars! "variables"),
+             (chars! "bound", chars! "boundprocs")], Gen.sublinkTypes.lookup kv.1 = some kv.2) ∧
+    Gen.classDefaults.all (fun row => row.2.all (fun p => p.2 == kList || p.2 == kDict || p.2 == kStr)) = true := by
+  decide
+
+/-- **Why the plain lists have to be converted** (witness, `decide`): an imported module that has its `pub_vars`
+    table but not its `variables` list - what "build only the `pub_*` tables" gives - answers `[[geom:origin]]`
+    with nothing, so that `convert_link` falls back to the module's own page, and `[[geom:origin(variable)]]` with
+    a ValueError that ends the run; the module imported as the code imports it reaches the variable. -/
+theorem module_without_its_plain_lists_loses_child_references_witness :
+    let v : XObj := .node (chars! "variable") (.str (chars! "origin")) (.str (chars! "/A/doc/module/geom.html#variable-origin"))
+      (some (.str (chars! "geom"))) none []
+    let lean : XObj := .node (chars! "module") (.str (chars! "geom")) (.str (chars! "/A/doc/module/geom.html")) none none
+      [(chars! "pub_vars", .dict [(chars! "origin", v)])]
+    let full : XObj := .node (chars! "module") (.str (chars! "geom")) (.str (chars! "/A/doc/module/geom.html")) none none
+      [(chars! "pub_vars", .dict [(chars! "origin", v)]), (chars! "variables", .list [v])]
+    outcome (xFindChild lean (chars! "origin") none) = [chars! "none"] ∧
+    outcome (resolveRef (some lean) (some (chars! "origin")) none)
+      = [chars! "module", chars! "geom", chars! "/A/doc/module/geom.html"] ∧
+    outcome (xFindChild lean (chars! "origin") (some (chars! "variable"))) = [chars! "ValueError"] ∧
+    outcome (resolveRef (some full) (some (chars! "Origin")) none)
+      = [chars! "variable", chars! "origin", chars! "/A/doc/module/geom.html#variable-origin"] ∧
+    outcome (xFindChild full (chars! "origin") (some (chars! "Variable")))
+      = [chars! "variable", chars! "origin", chars! "/A/doc/module/geom.html#variable-origin"] := by
+  decide
+
+/-- **Stripping is not idempotent: the second conversion of the same dictionary loses the directory.**
+    `dict2obj` stores `external_url.split("/", 1)[-1]` back into the dictionary it was given.  On the exported
+    `./dir/rest` the first conversion leaves `dir/rest` (= `get_url()`, `strip_first_segment`); a second conversion
+    of the *same* dictionary would re-base `rest` alone - for every directory name and every rest. -/
+theorem second_strip_loses_directory (dir rest : Str) (hd : '/' ∉ dir) :
+    afterFirstSlash ('.' :: '/' :: (dir ++ '/' :: rest)) = dir ++ '/' :: rest ∧
+    afterFirstSlash (afterFirstSlash ('.' :: '/' :: (dir ++ '/' :: rest))) = rest := by
+  rw [afterFirstSlash_dot_slash]
+  exact ⟨rfl, afterFirstSlash_append dir rest hd⟩
+
+/-- a stripped URL without a directory left is a fixed point: only then would a second conversion be harmless -/
+theorem strip_fixed_point (s : Str) (h : '/' ∉ s) : afterFirstSlash s = s := by
+  simp [afterFirstSlash, afterFirstSlashAux_none s h]
+
+/-- **Every load has to start from a freshly parsed description** (witness, `decide`): the model of the state
+    `dict2obj` leaves behind (`rewriteJ`, corresponded with the real dictionary after `load_external_modules`)
+    converted a second time puts the module at `/A/doc/geom.html`; the description as parsed from the file at
+    `/A/doc/module/geom.html`. -/
+theorem converting_the_same_dictionary_twice_witness :
+    let j : Json := .obj [(kName, .str (chars! "geom")), (kUrl, .str (chars! "./module/geom.html")),
+                          (kObj, .str (chars! "module"))]
+    let b : Base := { remote := false, url := chars! "/A/doc" }
+    ((dict2obj b none j).toOption.bind xUrl).map jsonText = some (chars! "/A/doc/module/geom.html") ∧
+    ((dict2obj b none (rewriteJ j)).toOption.bind xUrl).map jsonText = some (chars! "/A/doc/geom.html") := by
+  decide
+
+/-- Non-vacuity of `child_reference_reaches_entity` / `qualified_child_lookup_exact`: a module exported with a
+    type and a constructor interface of the same name plus a variable: `[[m:origin]]` reaches the variable,
+    `[[m:vec]]` the type (types come before interfaces in `children`), `[[m:vec(interface)]]` the interface. -/
+example :
+    let m : Ent := .node (chars! "m") (some (chars! "module/m.html")) (chars! "module") none
+      [(chars! "interfaces", .list [.node (chars! "vec") (some (chars! "interface/vec.html")) (chars! "interface")
+                                      (some (chars! "Interface")) []]),
+       (chars! "types", .list [.node (chars! "vec") (some (chars! "type/vec.html")) (chars! "type") none []]),
+       (chars! "variables", .list [.node (chars! "Origin") (some (chars! "module/m.html#variable-origin"))
+                                      (chars! "variable") none []])]
+    let b : Base := { remote := false, url := chars! "/A/doc" }
+    outcome (xFindChild (specE b none m) (chars! "origin") none)
+      = [chars! "variable", chars! "Origin", chars! "/A/doc/module/m.html#variable-origin"] ∧
+    outcome (xFindChild (specE b none m) (chars! "VEC") none) = [chars! "type", chars! "vec", chars! "/A/doc/type/vec.html"] ∧
+    outcome (xFindChild (specE b none m) (chars! "vec") (some (chars! "Interface")))
+      = [chars! "interface", chars! "vec", chars! "/A/doc/interface/vec.html"] := by
+  decide
+
+/-! ## Round 6: the `href` of a textual reference to an imported entity -/
+
+/-- **A `[[...]]` reference to an entity imported from a local path leads, from the page it is shown on, to the
+    entity's URL in A's documentation.**  `convert_link` writes `relpath(external_url, current_path)` with
+    `current_path = <output dir>/<Path(context url).parent.parent>/non-existent dir` - the text is shown on the
+    entity's own page and on list pages, so the reference has to work from every directory *next to* that one.
+    For every output directory `base`, every `pre`, every sibling directory `d`, every absolute URL without `..`
+    (what `dict2obj` builds: A's resolved location / `get_url`): following the reference from `base/pre/d`
+    arrives exactly at the URL.  Excluded (decidable, witnessed below): A's documentation lying inside
+    `base/pre/non-existent dir`. -/
+theorem textual_link_leads_to_imported_url_partial (base pre : List Path.Seg) (d : Path.Seg) (itemUrl : Str)
+    (hb : Path.Normal base) (hpre : Path.Normal pre) (hd : Path.NormalSeg d) (habs : isAbs itemUrl = true)
+    (hup : Path.up ∉ pathSegs itemUrl)
+    (hx : ¬ (base ++ pre ++ [kNonExistent]) <+: pathSegs itemUrl) :
+    Path.resolve (base ++ pre ++ [d]) (linkRel base (base ++ pre ++ [kNonExistent]) itemUrl) = pathSegs itemUrl := by
+  have ht : Path.Normal (pathSegs itemUrl) := by
+    intro s hs
+    have hne : s ≠ Path.up := fun h => hup (h ▸ hs)
+    simp only [pathSegs, List.mem_filter, Bool.and_eq_true, Bool.not_eq_true', bne_iff_ne, ne_eq] at hs
+    refine ⟨?_, hs.2.2, hne⟩
+    intro h; subst h; simp at hs
+  have hP : Path.Normal (base ++ pre) := Path.normal_append hb hpre
+  have hX : Path.NormalSeg kNonExistent := by decide
+  have hcur : Path.Normal (base ++ pre ++ [kNonExistent]) :=
+    Path.normal_append hP (fun s hs => by simp at hs; subst hs; exact hX)
+  have hne : Path.relpath (pathSegs itemUrl) (base ++ pre ++ [kNonExistent]) ≠ [] := by
+    intro h
+    exact hx (by rw [relpath_eq_nil _ _ h]; exact List.prefix_refl _)
+  have h1 : linkRel base (base ++ pre ++ [kNonExistent]) itemUrl
+      = Path.relpath (pathSegs itemUrl) (base ++ pre ++ [kNonExistent]) := by
+    unfold linkRel linkTarget Path.relpathPy
+    simp only [habs, if_true]
+    rw [Path.norm_normal _ ht, Path.norm_normal _ hcur, if_neg hne]
+  rw [h1]
+  unfold Path.resolve Path.norm
+  rw [foldl_sibling (base ++ pre) (pathSegs itemUrl) d kNonExistent hP ht hd hX hx []]
+  simp
+
+/-- the page directory the theorem speaks of is the one `MetaMarkdown.convert` computes from the context's URL -/
+theorem current_path_is_sibling_of_page_directories (base ctxUrl : List Path.Seg) :
+    currentPath base ctxUrl = base ++ ctxUrl.dropLast.dropLast ++ [kNonExistent] := rfl
+
+/-- **A reference to an entity imported from a remote location is the imported URL, unchanged**, wherever the
+    page is. -/
+theorem remote_link_href_verbatim (base cur : List Path.Seg) (u : Str) (h : (stripHttp u).isSome = true) :
+    linkHref base cur u = u := by
+  have : startsWith u kHttp = true := by
+    unfold stripHttp at h
+    split at h <;> simp_all [startsWith, kHttp]
+  simp [linkHref, this]
+
+/-- the second look `RelativeLinksTreeProcessor` takes at every `href` changes nothing unless the reference,
+    read from the working directory, happens to lie below the output directory -/
+theorem tree_processor_leaves_foreign_href (base cwd cur : List Path.Seg) (href : Str)
+    (h : properPrefix base (if isAbs href then Path.norm (pathSegs href) else Path.norm (cwd ++ pathSegs href)) = false) :
+    fixHref base cwd cur href = href := by
+  simp [fixHref, h]
+
+/-- **Witnesses for the two exclusions** (`decide`): A documented inside `<B's output>/non-existent dir` - the
+    reference made from there is followed from `module/` to a place inside B's `module/` directory; and a layout
+    in which the reference, read from the working directory, lies below the output directory - the tree processor
+    rewrites it into a reference to a page of B (as long as it reads relative references that way: the probed
+    `Gen.treeProcessorReadsRelative`; with the candidate repair it leaves the reference alone). -/
+theorem textual_link_exclusions_witness :
+    let base : List Path.Seg := [chars! "w", chars! "doc"]
+    Path.resolve (base ++ [chars! "module"])
+        (linkRel base (base ++ [kNonExistent]) (chars! "/w/doc/" ++ kNonExistent ++ chars! "/A/module/m.html"))
+      = [chars! "w", chars! "doc", chars! "module", chars! "A", chars! "module", chars! "m.html"] ∧
+    (Gen.treeProcessorReadsRelative = true →
+      pageHref base [chars! "w"] (base ++ [kNonExistent]) (chars! "/w/w/doc/A/m.html") = chars! "../A/m.html") ∧
+    (Gen.treeProcessorReadsRelative = false →
+      pageHref base [chars! "w"] (base ++ [kNonExistent]) (chars! "/w/w/doc/A/m.html") = chars! "../../w/doc/A/m.html") ∧
+    linkHref base (base ++ [kNonExistent]) (chars! "/w/w/doc/A/m.html") = chars! "../../w/doc/A/m.html" := by
+  decide
+
+/-- Non-vacuity: B documented in `/w/B/doc`, A in `/w/A/doc`: the reference shown on `module/bmod.html` and on
+    `lists/modules.html` is `../../../A/doc/module/geom.html` and leads to A's page from both. -/
+example :
+    let base : List Path.Seg := [chars! "w", chars! "B", chars! "doc"]
+    hrefOf base [chars! "w", chars! "B"] (.context [chars! "module", chars! "bmod.html"]) (chars! "/w/A/doc/module/geom.html")
+      = chars! "../../../A/doc/module/geom.html" ∧
+    Path.resolve (base ++ [chars! "lists"]) (pathSegs (chars! "../../../A/doc/module/geom.html"))
+      = [chars! "w", chars! "A", chars! "doc", chars! "module", chars! "geom.html"] ∧
+    hrefOf base [chars! "w", chars! "B"] (.context [chars! "module", chars! "bmod.html"]) (chars! "https://ex.invalid/a/module/geom.html")
+      = chars! "https://ex.invalid/a/module/geom.html" := by
+  decide
+
+/-! ## Round 6: `Project.find` among the imported objects -/
+
+/-- **Table fact (probed on every run): `Project.find` passes over imported type-bound procedures** when it looks
+    for a bare name - they share `extProcedures` with the module procedures. -/
+theorem find_skips_bindings : chars! "boundprocedure" ∈ Gen.findSkips := by decide
+
+/-- **A bare (or kind-qualified) `[[name]]` never ends at an object of a class `Project.find` skips** - with the
+    table fact above: never at a type-bound procedure of A, however the description orders its entities (bindings
+    are reached through their type: `child_reference_reaches_entity`).  For every set of loaded objects. -/
+theorem bare_name_never_reaches_a_skipped_class (skip : List Str) (os : List XObj) (name : Str) (kind : Option Str)
+    (o : XObj) (h : findLoadedWith skip os name kind = .ok (some o)) : skip.contains (xCls o) = false := by
+  cases kind with
+  | none => exact xFindTop_not_skipped skip name _ o (by simpa [findLoadedWith] using h)
+  | some k =>
+    simp only [findLoadedWith] at h
+    cases hl : Gen.linkTypes.lookup (lower k) with
+    | none => simp [hl] at h
+    | some c => simp only [hl] at h; exact xFindTop_not_skipped skip name _ o h
+
+theorem bare_name_never_reaches_a_binding (os : List XObj) (name : Str) (kind : Option Str) (o : XObj)
+    (h : findLoaded os name kind = .ok (some o)) : xCls o ≠ chars! "boundprocedure" := by
+  have h1 := bare_name_never_reaches_a_skipped_class Gen.findSkips os name kind o h
+  intro hc
+  rw [hc] at h1
+  have h2 : Gen.findSkips.contains (chars! "boundprocedure") = true := by decide
+  rw [h2] at h1
+  cases h1
+
+/-- **Why the table fact is load-bearing** (witness, `decide`): a type `t` with a binding `s`, listed before the
+    module subroutine `s`: without the skip `[[s]]` ends at the binding (`type/t.html#boundprocedure-s`), with the
+    probed table at the subroutine's page. -/
+theorem binding_found_by_bare_name_witness :
+    let bnd : XObj := .node (chars! "boundprocedure") (.str (chars! "s")) (.str (chars! "/A/doc/type/t.html#boundprocedure-s"))
+      (some (.str (chars! "t"))) none []
+    let typ : XObj := .node (chars! "type") (.str (chars! "t")) (.str (chars! "/A/doc/type/t.html")) (some (.str (chars! "m"))) none
+      [(chars! "boundprocs", .list [bnd])]
+    let sub : XObj := .node (chars! "subroutine") (.str (chars! "s")) (.str (chars! "/A/doc/proc/s.html")) (some (.str (chars! "m"))) none []
+    let m : XObj := .node (chars! "module") (.str (chars! "m")) (.str (chars! "/A/doc/module/m.html")) none none
+      [(chars! "types", .list [typ]), (chars! "subroutines", .list [sub])]
+    outcome (findLoadedWith [] [m] (chars! "s") none)
+      = [chars! "boundprocedure", chars! "s", chars! "/A/doc/type/t.html#boundprocedure-s"] ∧
+    outcome (findLoaded [m] (chars! "S") none) = [chars! "subroutine", chars! "s", chars! "/A/doc/proc/s.html"] ∧
+    outcome (xConvertLink [m] (chars! "t") none (some (chars! "s")) none)
+      = [chars! "boundprocedure", chars! "s", chars! "/A/doc/type/t.html#boundprocedure-s"] ∧
+    outcome (xConvertLink [m] (chars! "m") none (some (chars! "nosuch")) none)
+      = [chars! "module", chars! "m", chars! "/A/doc/module/m.html"] := by
+  decide
+
+/-- **`[[module:entity]]` through `Project.find` / `convert_link`.**  When the search for the parent's name among the
+    loaded objects ends at the import of an exported entity `m` (for a module of A and a B without a module of that
+    name it does: `reference_to_any_exported_module_resolves`), the whole reference resolves - without the fall-back
+    to the parent's page - to the import of an entity that `m` lists under that name, at A's location / `get_url`. -/
+theorem reference_through_project_find_reaches_entity (b : Base) (p : Option Json) (os : List XObj)
+    (pname : Str) (pkind : Option Str) (name : Str) (url : Option Str) (obj : Str)
+    (pt : Option Str) (attrs : List (Str × Attr)) (a : Str) (xs : List Ent)
+    (htop : findLoaded os pname pkind = .ok (some (specE b p (.node name url obj pt attrs))))
+    (ha : a ∈ Gen.childrenOrder) (hat : a ∈ Gen.attributes) (hl : attrs.lookup a = some (.list xs))
+    (en : Str) (eu : Option Str) (eo : Str) (ept : Option Str) (eats : List (Str × Attr))
+    (he : Ent.node en eu eo ept eats ∈ xs) :
+    ∃ cn cu co cpt cats, lower en = lower cn ∧
+      xConvertLink os pname pkind (some en) none = .ok (some (specE b (some (.str name)) (.node cn cu co cpt cats))) ∧
+      xUrl (specE b (some (.str name)) (.node cn cu co cpt cats)) = some (.str (rebase b (urlText cu))) := by
+  obtain ⟨_, _, cn, cu, co, cpt, cats, _, _, _, _, h5, h6, h7⟩ :=
+    child_reference_reaches_entity b p name url obj pt attrs a xs ha hat hl en eu eo ept eats he
+  refine ⟨cn, cu, co, cpt, cats, h5, ?_, h7⟩
+  simp [xConvertLink, xProjectFind, htop, viaParent, h6]
 
 end Ford.C16
